@@ -133,3 +133,11 @@ U("c16_header_trim_K3", ["C16", "C01"], "h_header_trim", ["C16/header_trim.c"], 
   functions=["header_clean_trailing_whitespace", "token_trim_trailing_whitespace", "char_is_whitespace_or_line_ending"],
   callees={"token_trim_trailing_whitespace/char_is_whitespace_or_line_ending": "real bodies and table"}, min_obligations=20, timeout=600, cost=20,
   assumptions=["token spans lie inside the source (C15)"])
+
+# ---- label_from_header passes label_from_token's result through untouched (no cut at a byte offset)
+U("c16_label_from_header_passthrough", ["C16", "C10"], "h_label_header", ["C16/label_header.c"], ["writer.c"], plain=True, lib=("lib/libc_models.c",), kind="bounded",
+  defines=["-DLL=70", "-DI18N_DISABLED=1"], drop_bodies=["manual_label_from_header", "label_from_token"],
+  pre_instrument=["--remove-function-body-regex", "^(?!label_from_header$|manual_label_from_header$|label_from_token$|token_new$|token_free$|strlen$|h_label_header$|verif_.*$|__CPROVER.*$).*"],
+  cbmc_flags=["--unwind", "73", "--unwinding-assertions"], bounds={"label length<=": 70, "unwind": 73},
+  functions=["label_from_header"], callees={"label_from_token, manual_label_from_header": "contract stubs (their contracts: lbl_* / hdr_label_* units)", "token_new, token_free": "counting stubs"},
+  min_obligations=10, timeout=300, cost=15, assumptions=[NOFAIL, "EXT_RANDOM_LABELS off (the random arm makes a decimal number)"])
